@@ -258,6 +258,33 @@ Proof. exact builtin_bitmaps_unchanged. Qed.
 Theorem C14_builtin_expansion_agrees : forall m, In m mappings -> bm_chars m = expand_chars (bm_raw m).
 Proof. exact builtin_expansion_agrees. Qed.
 
+(* ------------------------------------------------------------------ NULL_FONT (default font of MonoTextStyleBuilder::new()) *)
+(* src/mono_font/mod.rs NULL_FONT, regenerated into Gen/FontTable.v as `null_font`: every field is zero, the atlas is
+   empty, the mapping is ASCII.  It is not font_wf; the side conditions that hold are listed, and it draws nothing. *)
+Theorem C14_null_font_is_zero_sized :
+  bf_font null_font = Font 0 0 0 0 0 0 (Deco 0 0) (Deco 0 0) /\ bf_rawlen null_font = 0 /\
+  exists m, mapping_of null_font = Some m /\ bm_name m = [65; 83; 67; 73; 73].
+Proof. exact null_font_all_zero. Qed.
+
+Theorem C14_null_font_side_conditions : forall idx atlas s text,
+  let F := MFont (bf_font null_font) idx atlas in
+  font_ok (bf_font null_font) /\ deco_inside (bf_font null_font) /\ index_ok F text /\
+  advance_consistent (bf_font null_font) s text /\ ~ font_wf (bf_font null_font).
+Proof. exact null_font_side_conditions. Qed.
+
+Theorem C14_null_font_draws_nothing : forall idx atlas s text pos bl,
+  draw_string (MFont (bf_font null_font) idx atlas) s text pos bl = ([], pos).
+Proof. exact null_font_draws_nothing. Qed.
+
+Theorem C14_null_font_text_draws_nothing : forall idx atlas s ts pos text,
+  fst (text_draw (MFont (bf_font null_font) idx atlas) s ts pos text) = [].
+Proof. exact null_font_text_draws_nothing. Qed.
+
+(* any font record with character width 0 and spacing 0 behaves like this *)
+Theorem C14_zero_width_font_draws_nothing : forall F s text pos b,
+  f_cw (mf_geom F) = 0 -> f_sp (mf_geom F) = 0 -> draw_string F s text pos b = ([], pos).
+Proof. exact draw_string_zero_width. Qed.
+
 (* ------------------------------------------------------------------ non-vacuity *)
 Example C14_example_font : mfont :=
   MFont (Font 8 6 4 3 1 2 (Deco 4 1) (Deco 1 1)) (fun c => str_index [0; 97; 100] 1 c)
